@@ -86,10 +86,10 @@ struct OlcEngine final : Engine {
     // writes next to it or below the node that survives / is edited in place, a third one reads (or scans) below it. The
     // interesting races need exactly this cast, which independent random operations produce very rarely.
     Rng tq = stream(seed, S_WORKLOAD + 64);
-    enum { T_NONE, T_COLLAPSE_INODE, T_COLLAPSE_LEAF, T_PREFIX_SPLIT, T_GROW, T_SHRINK, T_LEAF_SPLIT_BELOW };
+    enum { T_NONE, T_COLLAPSE_INODE, T_COLLAPSE_LEAF, T_PREFIX_SPLIT, T_GROW, T_SHRINK, T_LEAF_SPLIT_BELOW, T_STARVE };
     int tmpl = T_NONE;
     if (sweep || tq.chance(0.25)) {
-      tmpl = 1 + static_cast<int>(tq.below(6));
+      tmpl = 1 + static_cast<int>(tq.below(sweep ? 6 : 7));  // (sustained writes are not a double-preemption scenario)
       static const int grow_at[] = {4, 4, 16, 16, 48}, shrink_at[] = {5, 5, 17, 17, 49};
       if (tmpl == T_COLLAPSE_INODE || tmpl == T_COLLAPSE_LEAF) cnt = 2;
       else if (tmpl == T_GROW) cnt = grow_at[tq.below(tier == "thorough" ? 5 : 4)];
@@ -279,6 +279,13 @@ struct OlcEngine final : Engine {
           w2 = tq.chance(0.5) ? mk(O_REMOVE, hotp(1)) : mk(O_INSERT, hota(0));
           rd = reader(deep_b >= 0 && tq.chance(0.5) ? lay.key(a0, deep_b, A3[1]) : hotp(2));
           break;
+        case T_STARVE:
+          // sustained writes through the reader's path: two writers toggle keys below the hot node many times while one reader
+          // looks up a key there; under fine-grained schedules the reader loses its optimistic race again and again
+          w1 = mk(O_INSERT, hota(0));
+          w2 = mk(O_INSERT, hota(1));
+          rd = reader(hotp(0));
+          break;
         default:  // T_LEAF_SPLIT_BELOW
           w1 = mk(O_INSERT, lay.key(a0, A2[0], A3[1]));
           w2 = tq.chance(0.6) ? mk(O_INSERT, hota(0)) : mk(O_REMOVE, hotp(1));
@@ -288,6 +295,15 @@ struct OlcEngine final : Engine {
       Op cast[3] = {w1, w2, rd};
       for (int i = 2; i > 0; i--) std::swap(cast[i], cast[tq.below(static_cast<uint64_t>(i) + 1)]);
       for (int t = 0; t < 3; t++) c.threads[static_cast<size_t>(t)].insert(c.threads[static_cast<size_t>(t)].begin(), cast[t]);
+      if (tmpl == T_STARVE)
+        for (int t = 0; t < 3; t++) {
+          auto& ops = c.threads[static_cast<size_t>(t)];
+          if (ops[0].kind != O_INSERT) { ops.resize(1); continue; }  // the reader: one lookup
+          const std::string key = ops[0].key;
+          ops.resize(1);
+          const int n = static_cast<int>(tq.range(9, 15));
+          for (int i = 0; i < n; i++) ops.push_back(mk((i % 2) == 0 ? O_REMOVE : O_INSERT, key));
+        }
       c.set_knob("template", tmpl);
     }
     c.set_knob("initial_threads", nthreads);
